@@ -1,0 +1,24 @@
+package utils_test
+
+import (
+	"testing"
+
+	"github.com/nyaruka/goflow/utils"
+	"github.com/stretchr/testify/assert"
+)
+
+func TestTruncate(t *testing.T) {
+	assert.Equal(t, "", utils.Truncate("hello", -1))
+	assert.Equal(t, "", utils.Truncate("hello", 0))
+	assert.Equal(t, "he", utils.Truncate("hello", 2))
+	assert.Equal(t, "hello", utils.Truncate("hello", 5))
+	assert.Equal(t, "hello", utils.Truncate("hello", 6))
+
+	assert.Equal(t, "", utils.TruncateEllipsis("hello", -1))
+	assert.Equal(t, "", utils.TruncateEllipsis("hello", 0))
+	assert.Equal(t, "he", utils.TruncateEllipsis("hello", 2))
+	assert.Equal(t, "...", utils.TruncateEllipsis("hello", 3))
+	assert.Equal(t, "h...", utils.TruncateEllipsis("hello", 4))
+	assert.Equal(t, "hello", utils.TruncateEllipsis("hello", 5))
+	assert.Equal(t, "hé", utils.TruncateEllipsis("héllo", 2))
+}
